@@ -74,8 +74,44 @@ def run_for_property(prop, config="default"):
             "skipped": [r["mutant"] for r in results if r["status"] == "skipped"], "failed": failed, "results": results}
 
 
+def run_benign(config="default"):
+    """Behaviour-preserving refactors: every property's rules must stay silent (known findings excepted)."""
+    import engine
+    props = sorted(os.path.basename(p)[:-3] for p in glob.glob(os.path.join(HERE, "rules", "C*.py")))
+    known = {k["key"] for k in engine.load_known() if k.get("status") == "known"}
+    out = []
+    for patch in sorted(glob.glob(os.path.join(VERIF, "selftest", "mutants", "benign", "*.diff"))):
+        tmp, dst, err = make_scratch(patch)
+        name = os.path.basename(patch)
+        if tmp is None:
+            out.append({"refactor": name, "status": "skipped", "why": err})
+            continue
+        try:
+            try:
+                d, info = extract.ensure_facts(config, repo=dst)
+            except extract.ExtractError as e:
+                out.append({"refactor": name, "status": "broken", "why": str(e)[-600:]})
+                continue
+            alarms = []
+            for p in props:
+                inst, errs = engine.run_rules(p, d, config)
+                alarms += ["CRASH " + e[:300] for e in errs]
+                alarms += [i["key"] + " :: " + str(i.get("msg"))[:200] for i in inst if not i["ok"] and i["key"] not in known]
+            out.append({"refactor": name, "status": "silent" if not alarms else "FALSE-ALARM", "alarms": alarms})
+        finally:
+            shutil.rmtree(tmp, ignore_errors=True)
+    return out
+
+
 if __name__ == "__main__":
     import json
+    if sys.argv[1] == "--benign":
+        res = run_benign()
+        for r in res:
+            print(r["refactor"], r["status"])
+            for a in r.get("alarms", []) or ([r["why"]] if r.get("why") else []):
+                print("     ", a)
+        sys.exit(1 if any(r["status"] not in ("silent", "skipped") for r in res) else 0)
     prop = sys.argv[1]
     if len(sys.argv) > 2:
         print(json.dumps(run_mutant(prop, os.path.abspath(sys.argv[2])), indent=1))
